@@ -958,30 +958,20 @@ impl TypeLayout {
             }
             Self::Function(function) => {
                 let mut new_function = function.clone();
-                let (is_return_type_class_self, is_return_type_optional) = {
+                // `Self` may sit anywhere in the signature (`-> [Self...]`, `-> Self?`, `other: [Self...]`), not
+                // only at its top: left as `Self`, it was read as the class of whoever CALLS the method
+                let updated_return_type = {
                     // scoped because `try_set_return_type` borrows mutably
                     let return_type = function.return_type();
 
-                    if let Some(ty) = return_type.get_type() {
-                        (
-                            ty.disregard_distractors(true).is_class_self(),
-                            ty.disregard_distractors(false).is_optional().0,
-                        )
-                    } else {
-                        (false, false)
-                    }
+                    return_type.get_type().and_then(|ty| {
+                        let updated = ty.update_all_references_to_class_self(class_type.clone());
+                        (&updated != ty.as_ref()).then_some(updated)
+                    })
                 };
 
-                if is_return_type_class_self {
-                    let mut return_type = Cow::Owned(TypeLayout::Class(class_type.clone()));
-
-                    if is_return_type_optional {
-                        return_type = Cow::Owned(TypeLayout::Optional(Some(Box::new(return_type))))
-                    }
-
-                    let new_return_status = ScopeReturnStatus::Did(return_type);
-
-                    new_function.try_set_return_type(new_return_status);
+                if let Some(return_type) = updated_return_type {
+                    new_function.try_set_return_type(ScopeReturnStatus::Did(Cow::Owned(return_type)));
                 }
 
                 let p = new_function.parameters_mut();
@@ -989,22 +979,9 @@ impl TypeLayout {
                 let mut new_parameters = Vec::with_capacity(p.len());
 
                 for ty in p.to_types().iter() {
-                    let is_type_class_self = ty.disregard_distractors(true).is_class_self();
-                    if is_type_class_self {
-                        let is_type_optional = ty.disregard_distractors(false).is_optional().0;
-
-                        let class_self = Cow::Owned(TypeLayout::Class(class_type.clone()));
-
-                        let replacement = if is_type_optional {
-                            Cow::Owned(TypeLayout::Optional(Some(Box::new(class_self))))
-                        } else {
-                            class_self
-                        };
-
-                        new_parameters.push(replacement);
-                    } else {
-                        new_parameters.push(ty.clone());
-                    }
+                    new_parameters.push(Cow::Owned(
+                        ty.update_all_references_to_class_self(class_type.clone()),
+                    ));
                 }
 
                 *p = Rc::new(FunctionParameters::TypesOnly(new_parameters));
